@@ -142,6 +142,9 @@ def run_file_typestate(repo: Repo, model: PyModel, walk: bool = True) -> FileTyp
         if not opts:
             return [(Raised("IndexError", node, f"{rule}.children[{idx}]"), st)]
         res = []
+        if idx >= g.min_children(rule):
+            # an error-free tree of this rule may have fewer children
+            res.append((Raised("IndexError", node, f"{rule}.children[{idx}] (rule may have only {g.min_children(rule)} children)"), st.fork()))
         kinds = sorted({("rule", o[1]) if o[0] == "rule" else ("tokens",) for o in opts})
         for i, k in enumerate(kinds):
             s2 = st if i == len(kinds) - 1 else st.fork()
